@@ -38,7 +38,6 @@ Section E.
 Variable sigma : oracle.
 Variable i : inst.
 Hypothesis Hnn : inst_nonneg_b i = true.
-Hypothesis Hflex : flex_post_b i = true.
 Variable t0 : Z.
 
 (* no operation starts before the initial clock *)
@@ -109,20 +108,22 @@ Theorem J5_apply x tr R x' :
   NO x -> J5 x -> Q3 (tr :: R) x -> is_transition_valid x tr = Ok true -> apply_transition sigma i x tr = Ok x' ->
   J5 x' /\ Q3 R x' /\ side2 tr x' = true.
 Proof.
-  intros N [Hj S] HQ Hv Ha. destruct (J3_apply sigma i Hnn Hflex _ _ _ _ N Hj HQ Hv Ha) as [Hj' [HQ' Sd]].
+  intros N [Hj S] HQ Hv Ha. destruct (J3_apply sigma i Hnn _ _ _ _ N Hj HQ Hv Ha) as [Hj' [HQ' Sd]].
   split; [split; auto|auto]. destruct Hj as [[_ [[F _] _]] _]. eapply apply_preserves_S0; eauto.
 Qed.
 
 Lemma J5_now x t : J5 x -> (s_now x <= t)%Z -> J5 (set_now x t).
 Proof. intros [Hj S] H. split; [apply (J3_now i); auto|apply S0_set_now; auto]. Qed.
 
-Lemma Q5_timed x timed poss tele : NO x -> J5 x -> create_timed_transitions i x = Ok timed ->
+Lemma Q5_timed x timed poss tele : NO x -> J5 x -> BI x -> create_timed_transitions i x = Ok timed ->
   get_possible_transitions i x = Ok poss -> filter_teleport i x poss = Ok tele -> Q3 (timed ++ tele) x.
 Proof. intros N [Hj _]. apply (Q3_timed i); auto. Qed.
-Lemma Q5_timed0 x timed : NO x -> J5 x -> create_timed_transitions i x = Ok timed -> Q3 timed x.
+Lemma Q5_timed0 x timed : NO x -> J5 x -> BI x -> create_timed_transitions i x = Ok timed -> Q3 timed x.
 Proof. intros N [Hj _]. apply (Q3_timed0 i); auto. Qed.
-Lemma Q5_offer x o : J5 x -> OK3 x o -> Q3 [o] x.
+Lemma Q5_offer x o : J5 x -> BI x -> create_timed_transitions i x = Ok [] -> OK3 x o -> Q3 [o] x.
 Proof. intros [Hj _]. apply (Q3_offer i); auto. Qed.
+Lemma E5_end x : J5 x -> Q3 [] x -> BI x.
+Proof. intros [Hj _]. apply (E3_end i); auto. Qed.
 
 (* ---------- the records of a finished state are a feasible classic schedule ---------- *)
 Definition start_of (x : state) (j k : nat) : Z :=
@@ -190,7 +191,6 @@ Section Run.
 Variable sigma : oracle.
 Variable i : inst.
 Hypothesis Hnn : inst_nonneg_b i = true.
-Hypothesis Hflex : flex_post_b i = true.
 
 Lemma fresh_S0 x : fresh_b i x = true -> S0 (s_now x) x.
 Proof.
@@ -212,9 +212,9 @@ Proof.
   assert (Fr1 : fresh_b i x0 = true) by (unfold fresh2_b in Fr; apply andb_true_iff in Fr; destruct Fr as [Fr _]; apply andb_true_iff in Fr; tauto).
   assert (J0 : J5 i (s_now x0) x0).
   { split; [split; [apply J_init; auto|apply fresh_BO_DUR; auto]|apply fresh_S0; auto]. }
-  destruct (reach_reachG sigma i Hnn (J5 i (s_now x0)) Q3 side2 OK3
-              (J5_apply sigma i Hnn Hflex (s_now x0)) (J5_now i (s_now x0)) (Q5_timed i (s_now x0))
-              (Q5_timed0 i (s_now x0)) (Q5_offer i (s_now x0)) (offers_ok3 i) _ _ _ _ _ _ Cl J0 H)
+  destruct (reach_reachG sigma i Hnn (J5 i (s_now x0)) Q3 side2 OK3 BI
+              (J5_apply sigma i Hnn (s_now x0)) (J5_now i (s_now x0)) (E5_end i (s_now x0)) BI_now (Q5_timed i (s_now x0))
+              (Q5_timed0 i (s_now x0)) (Q5_offer i (s_now x0)) (offers_ok3 i) _ _ _ _ _ _ Cl J0 (BI_init _ Dn) H)
     as [_ [_ [xq [Nq [Jq E]]]]].
   assert (Eops : s_jobs (r_x r) = s_jobs xq) by (destruct E as [->|[_ [z ->]]]; reflexivity).
   apply (finished_state_lower_bound i (s_now x0) xq I lb C Jq Ht0 R Hcl Hnm Hlb).
